@@ -216,8 +216,201 @@ def open_dataset(*a, **k):
     raise Unsupported("xarray.open_dataset")
 
 
-def load_dataset(*a, **k):
-    raise Unsupported("xarray.load_dataset")
+# -- gridded (time, [depth,] lat, lon) datasets, as read by the config creator ---------------------------------------------------------
+LOADABLE = {}      # path -> GridDataset, filled by the harness before the code under analysis calls xarray.load_dataset(path)
+
+
+def load_dataset(path, *a, **k):
+    if a or k:
+        raise Unsupported("xarray.load_dataset with options")
+    try:
+        return LOADABLE[str(path)]
+    except KeyError:
+        raise FileNotFoundError(2, "No such file or directory", str(path))
+
+
+class _DtAccessor:
+    def __init__(self, ga):
+        self._ga = ga
+
+    def __getattr__(self, name):
+        if name not in ("dayofyear", "year", "month", "day"):
+            raise Unsupported(f"DataArray.dt.{name}")
+        a = self._ga._arr
+        out = snp._obj(a.a.shape)
+        for p in _np.ndindex(a.a.shape):
+            out[p] = getattr(a.a[p], name)
+        return GridArray(snp.ndarray(out, "int64"), self._ga.dims, self._ga._coords)
+
+
+class GridArray:
+    """model of an n-d xarray.DataArray: data (symbolic ndarray) + dimension names + 1-d coordinate arrays per dimension.
+    Only what the config creator touches: comparisons, logical ufuncs, orthogonal (outer) indexing with slices / integers /
+    1-d boolean arrays, `.data`, `.values`, `.time.dt.<attr>`, `in`."""
+
+    def __init__(self, arr, dims, coords):
+        self._arr, self.dims, self._coords = arr, tuple(dims), dict(coords)
+
+    # -- numpy interoperability: symnp functions see the data ----------------------------------------------------------
+    def __sym_array__(self):
+        return self._arr
+
+    @property
+    def data(self):
+        return self._arr
+
+    @property
+    def values(self):
+        return self._arr
+
+    def to_numpy(self):
+        return self._arr
+
+    @property
+    def shape(self):
+        return self._arr.shape
+
+    @property
+    def dtype(self):
+        return self._arr._dt
+
+    @property
+    def ndim(self):
+        return self._arr.ndim
+
+    @property
+    def size(self):
+        return self._arr.size
+
+    def _wrap(self, arr):
+        return GridArray(arr, self.dims, self._coords) if isinstance(arr, snp.ndarray) and arr.a.shape == self._arr.a.shape else arr
+
+    @staticmethod
+    def _raw(o):
+        return o._arr if isinstance(o, GridArray) else o
+
+    def __ge__(self, o):
+        return self._wrap(self._arr >= self._raw(o))
+
+    def __le__(self, o):
+        return self._wrap(self._arr <= self._raw(o))
+
+    def __gt__(self, o):
+        return self._wrap(self._arr > self._raw(o))
+
+    def __lt__(self, o):
+        return self._wrap(self._arr < self._raw(o))
+
+    def __eq__(self, o):
+        return self._wrap(self._arr == self._raw(o))
+
+    def __ne__(self, o):
+        return self._wrap(self._arr != self._raw(o))
+
+    __hash__ = None
+
+    def __and__(self, o):
+        return self._wrap(self._arr & self._raw(o))
+
+    def __or__(self, o):
+        return self._wrap(self._arr | self._raw(o))
+
+    def __invert__(self):
+        return self._wrap(~self._arr)
+
+    def __contains__(self, v):
+        return bool((self._arr == v).any())
+
+    def __len__(self):
+        return len(self._arr)
+
+    def __iter__(self):
+        return iter(self._arr)
+
+    def __getattr__(self, name):
+        if name.startswith("_"):
+            raise AttributeError(name)
+        if name == "dt":
+            if self._arr._dt.kind != "M":
+                raise AttributeError("Can only use .dt accessor with datetimelike values")
+            return _DtAccessor(self)
+        c = self.__dict__.get("_coords", {})
+        if name in c:
+            return GridArray(c[name], (name,), {name: c[name]})
+        raise Unsupported(f"DataArray.{name}")
+
+    def __getitem__(self, key):
+        if not isinstance(key, tuple):
+            key = (key,)
+        if len(key) > len(self.dims):
+            raise IndexError("too many indices")
+        key = key + (slice(None),) * (len(self.dims) - len(key))
+        a = self._arr.a
+        sel, kept = [], []
+        coords = {}
+        for axis, (k, d) in enumerate(zip(key, self.dims)):
+            n = a.shape[axis]
+            if isinstance(k, GridArray):
+                if k.dims != (d,) and k._arr._dt.kind == "b":
+                    raise Unsupported("boolean DataArray indexer along another dimension")
+                k = k._arr
+            if isinstance(k, slice):
+                pos = list(range(n))[k]
+            elif isinstance(k, (int, _np.integer, SInt)):
+                i = int(k)
+                if i < -n or i >= n:
+                    raise IndexError(f"index {i} is out of bounds for axis {axis} with size {n}")
+                sel.append([i % n])
+                continue_scalar = True
+                kept.append(None)
+                continue
+            elif isinstance(k, (snp.ndarray, _np.ndarray, list)):
+                k = k if isinstance(k, snp.ndarray) else snp.asarray(k)
+                if k.a.ndim != 1:
+                    raise Unsupported("n-d array indexer")
+                if k._dt.kind == "b":
+                    if k.a.shape[0] != n:
+                        raise IndexError(f"Boolean array size {k.a.shape[0]} is used to index array with shape ({n},).")
+                    pos = [i for i, c in enumerate(k.a) if bool(c)]       # forks on each undecided bit
+                else:
+                    pos = [int(i) for i in k.a]
+            else:
+                raise Unsupported(f"DataArray indexer {type(k).__name__}")
+            sel.append(pos)
+            kept.append(d)
+            if d in self._coords:
+                coords[d] = snp.ndarray(self._coords[d].a[pos].copy(), self._coords[d]._dt)
+        out = a[_np.ix_(*sel)] if sel else a
+        shape = tuple(len(p) for p, d in zip(sel, kept) if d is not None)
+        out = out.reshape(shape).copy()
+        dims = tuple(d for d in kept if d is not None)
+        if not dims:
+            return GridArray(snp.ndarray(out.reshape(()), self._arr._dt), (), {})
+        return GridArray(snp.ndarray(out, self._arr._dt), dims, coords)
+
+
+class GridDataset:
+    def __init__(self, data_vars, coords):
+        """coords: {dim: 1-d snp.ndarray}; data_vars: {name: (dims, snp.ndarray)}"""
+        self._coords = dict(coords)
+        self._vars = dict(data_vars)
+
+    def __contains__(self, k):
+        return k in self._vars or k in self._coords
+
+    def __getitem__(self, name):
+        if name in self._coords:
+            return GridArray(self._coords[name], (name,), {name: self._coords[name]})
+        if name in self._vars:
+            dims, arr = self._vars[name]
+            return GridArray(arr, dims, {d: self._coords[d] for d in dims if d in self._coords})
+        if isinstance(name, str) and "." in name:
+            base, attr = name.split(".", 1)
+            return getattr(self[base].dt, attr)
+        raise KeyError(name)
+
+    def close(self):
+        pass
 
 
 core = _t.SimpleNamespace(indexing=_t.SimpleNamespace(map_index_queries=map_index_queries))
